@@ -155,6 +155,9 @@ func mutKind(o Op) string {
 		} else if o.Key.S {
 			k = "storeKey"
 		}
+		if o.compound() { // `b[k] .= c`, `+=`, `*=`, `??=`
+			k = map[string]string{"concat": "cat", "add": "add", "mul": "mul", "coalesce": "coalesce"}[o.R.U.K] + strings.ToUpper(k[5:6]) + k[6:]
+		}
 		if pre != "" {
 			return pre + strings.ToUpper(k[:1]) + k[1:]
 		}
@@ -316,6 +319,12 @@ func (r *runner) runCase(cs *Case, judge bool) outcome {
 						note += "; the implementation agrees with Cfg.shallow (copies share their inner arrays: the deep copy of C06-6 is not in this tree, C06_shallow_nested_counterexample)"
 					}
 				}
+				for _, op := range cs.Ops {
+					if hasCompound(op) {
+						note += "; the program contains a compound assignment on an element: in Model.Heap a scalar is a value without identity (C06_compound_rhs_pure, C06_compound_is_store), an implementation that changes the element's value object in place cannot be expressed and shows here"
+						break
+					}
+				}
 				impl := strings.Join(snaps, "|")
 				if !oc.ImplOK {
 					impl = o.String()
@@ -339,10 +348,25 @@ func (r *runner) runCase(cs *Case, judge bool) outcome {
 			sig += ":" + cs.Route + ":" + cs.Mut
 		}
 		r.seen(sig, cs)
+		if _, dup := r.sigs[sig+"#"]; !dup {
+			r.sigs[sig+"#"] = Script(cs.NV, cs.Ops, "c_", false) + "\n" + o.String()
+		}
 		c.Violation(sig, "program did not run to completion: "+o.String(), cs)
 	}
 	c.SampleSome(map[string]any{"script": Script(cs.NV, cs.Ops, "c_", false), "snapshots": snaps}, 1499)
 	return oc
+}
+
+func hasCompound(o Op) bool {
+	if o.compound() {
+		return true
+	}
+	for _, in := range o.Inner {
+		if hasCompound(in) {
+			return true
+		}
+	}
+	return false
 }
 
 func tokAll(ops []Op) []string {
